@@ -271,6 +271,32 @@ def feature_cases(run, scratch):
             anns.append("ann osdevinfo 3 %s %s" % (G.hx(b"Backend"), G.hx(b"RSMI")))      # an explicit Backend info suppresses the v2 one
         out.append((Case("feature:osdev%d" % i, "feature", LIN, anns, ["feature"]),
                     [(p, "buffer", "v2") for p in ALL] + [(("0", "0"), "file", "v3"), (("1", "1"), "buffer", "v3")]))
+    # every (type, subtype, info name) the importer's version-dependent compatibility code looks at, with values that do and do
+    # not already carry the rewritten form, short and > 60 bytes: a v3 round trip must reproduce them byte for byte
+    LONG = b"x" * 61 + b" MB and then some more text beyond any 64-byte scratch buffer"
+    def il(pairs):
+        return "%d %s" % (len(pairs), " ".join("%s %s" % (H(a), H(b)) for a, b in pairs))
+    compat = ["ann miscsub 0 %s %s %s" % (H(b"DIMM0"), H(b"MemoryModule"), il([(b"Size", b"16384 MB"), (b"Size", b"1024"), (b"Size", b"4096KiB"), (b"Size", LONG), (b"SectorSize", b"512")])),
+              "ann miscsub 1 %s %s %s" % (H(b"DIMM1"), H(b"MemoryModule"), il([(b"Size", b"8")])),
+              "ann miscsub 3 %s %s %s" % (H(b"other"), H(b"NotAModule"), il([(b"Size", b"77")])),
+              "ann miscsub 2 %s - %s" % (H(b"plain"), il([(b"Size", b"5 GB")]))]
+    for nm in (b"Backend", b"SyntheticDescription", b"LinuxCgroup", b"MemoryTiersNr", b"WindowsBuildEnvironment", b"OSName", b"OSRelease", b"OSVersion",
+               b"HostName", b"Architecture", b"hwlocVersion", b"ProcessName"):
+        compat.append("ann info 0 %s %s" % (H(nm), H(b"root-" + nm)))       # on the root OBJECT: must not move to the topology infos in v3
+    compat += ["ann dist 4 5 3 %s" % H(b"XGMIHops")]                           # latency matrix with the name v2 used for hops
+    # a Group whose subtype is "Die", and one of kind 104 (what 2.0 files used for dies): still Groups after a v3 round trip
+    out.append((Case("feature:compat-group-die", "feature", SYN, ["ann group 1 1 1 0 0", "ann subtype 1 %s" % H(b"Die"), "ann group 6 6 1 104 0"], ["feature"]),
+                [(p, "buffer", "v3") for p in ALL] + [(("0", "0"), "file", "v3")]))
+    out.append((Case("feature:compat-tweaks", "feature", SYN, compat, ["feature"]),
+                [(p, m, "v3") for p in ALL for m in ("buffer", "file")] + [(("0", "0"), "buffer", "v2")]))
+    for i, st in enumerate(sets):
+        anns = []
+        for k, (types, sub, nm) in enumerate(st):
+            anns.append("ann osdev %d %d %s %s" % (k, types, H(sub), H(nm)))
+            anns.append("ann osdevinfo %d %s %s" % (k, H(b"Backend"), H([b"CUDA", b"NVML", b"RSMI", b"LevelZero", b"OpenCL", b"GL"][(i + k) % 6])))
+            anns.append("ann osdevinfo %d %s %s" % (k, H([b"Size", b"CUDAGlobalMemorySize", b"CXLPMEMSize", b"SectorSize", b"LevelZeroHBMSize"][k % 5]), H([b"1024", b"2048 KiB", b"77", LONG, b"1 KiB"][(i + k) % 5])))
+        anns.append("ann osdev 0 %d %s %s" % (i, H([None, b"NVM", b"CXLMem", b"BXI"][i]), H([b"dax0.0", b"dax1.0", b"mem0", b"bxi0"][i])))   # numeric values the v2 mapping rewrites
+        out.append((Case("feature:compat-osdev%d" % i, "feature", LIN, anns, ["feature"]), [(p, "buffer", "v3") for p in ALL] + [(("0", "0"), "file", "v3")]))
     return out
 
 
